@@ -4,15 +4,16 @@ package main
 // at joins and modular calls; produces proof obligations.
 
 import (
-	"path/filepath"
 	"fmt"
-	"sync"
 	"go/ast"
-	"math/big"
+	"go/constant"
 	"go/token"
 	"go/types"
+	"math/big"
+	"path/filepath"
 	"sort"
 	"strings"
+	"sync"
 
 	"golang.org/x/tools/go/ssa"
 )
@@ -28,51 +29,51 @@ type Obl struct {
 	Pos     token.Pos
 	Cover   bool // satisfiability check (must be sat)
 	// results
-	Result  string
-	Solver  string
-	Ms      int64
-	Model   string
-	Query   string
-	RawQuery string
+	Result     string
+	Solver     string
+	Ms         int64
+	Model      string
+	Query      string
+	RawQuery   string
 	Abstracted bool
 }
 
 type FnExec struct {
 	branchCovers bool
-	E        *Engine
-	tc       *TermCtx
-	top      *Contract
-	topFn    *ssa.Function
-	bv       bool
-	noOvf    bool
-	facts    []*Term
-	assumes  []*Term
-	obls     []*Obl
-	kindCnt  map[string]int
-	epochs   int
-	ranged   map[int]bool
-	rangedSl map[int]bool
-	heapSorts map[string]Sort
-	writeLog map[string]bool
-	cellLog  map[ssa.Value]bool
-	strConsts map[string]*Term
-	depth    int
-	trustedUsed map[string]bool
-	notes    []string
-	typeTags map[string]int
-	abstracted bool
-	entry    *State
-	globErrs map[*ssa.Global]*Term
-	crossMode map[string]bool
-	lemmaFiles map[string]bool
-	refKeys map[string]bool
-	symMemo map[*Term]map[string]bool
-	idxNames map[int]*Term
-	tcMu sync.Mutex
-	curStatic []types.Type
-	boxAxiom map[string]bool
-	topFrame *Frame
-	ghostTypes map[string]types.Type
+	E            *Engine
+	tc           *TermCtx
+	top          *Contract
+	topFn        *ssa.Function
+	bv           bool
+	noOvf        bool
+	facts        []*Term
+	assumes      []*Term
+	obls         []*Obl
+	kindCnt      map[string]int
+	epochs       int
+	ranged       map[int]bool
+	rangedSl     map[int]bool
+	heapSorts    map[string]Sort
+	writeLog     map[string]bool
+	cellLog      map[ssa.Value]bool
+	strConsts    map[string]*Term
+	depth        int
+	trustedUsed  map[string]bool
+	notes        []string
+	typeTags     map[string]int
+	abstracted   bool
+	entry        *State
+	globErrs     map[*ssa.Global]*Term
+	crossMode    map[string]bool
+	lemmaFiles   map[string]bool
+	refKeys      map[string]bool
+	symMemo      map[*Term]map[string]bool
+	idxNames     map[int]*Term
+	tcMu         sync.Mutex
+	curStatic    []types.Type
+	boxAxiom     map[string]bool
+	topFrame     *Frame
+	ghostTypes   map[string]types.Type
 }
 
 func (x *FnExec) addFact(t *Term) {
@@ -119,32 +120,32 @@ type loopInfo struct {
 	ordinal int
 	spec    *LoopSpec
 	// per-iteration snapshot for decreases
-	dec0 *Term
-	phis map[*ssa.Phi]Value
-	st   *State
+	dec0      *Term
+	phis      map[*ssa.Phi]Value
+	st        *State
 	frameKeys []string
-	mods []modLoc
+	mods      []modLoc
 }
 
 type Frame struct {
-	x         *FnExec
-	fn        *ssa.Function
-	contract  *Contract
-	vals      map[ssa.Value]Value
-	entryG    map[*ssa.BasicBlock]*Term
-	exitG     map[*ssa.BasicBlock]*Term
-	exitSt    map[*ssa.BasicBlock]*State
-	done      map[*ssa.BasicBlock]bool
-	rets      []retSite
-	entry     *State // state at function entry (for old())
-	loops     map[*ssa.BasicBlock]*loopInfo
-	rpo       []*ssa.BasicBlock
-	disc      map[*ssa.BasicBlock]bool
-	debug     map[string][]ssa.Value
-	env       map[string]TV // params by contract name
-	binds     []Value
-	top       bool
-	deferred  []*ssa.Defer
+	x        *FnExec
+	fn       *ssa.Function
+	contract *Contract
+	vals     map[ssa.Value]Value
+	entryG   map[*ssa.BasicBlock]*Term
+	exitG    map[*ssa.BasicBlock]*Term
+	exitSt   map[*ssa.BasicBlock]*State
+	done     map[*ssa.BasicBlock]bool
+	rets     []retSite
+	entry    *State // state at function entry (for old())
+	loops    map[*ssa.BasicBlock]*loopInfo
+	rpo      []*ssa.BasicBlock
+	disc     map[*ssa.BasicBlock]bool
+	debug    map[string][]ssa.Value
+	env      map[string]TV // params by contract name
+	binds    []Value
+	top      bool
+	deferred []*ssa.Defer
 }
 
 func newFnExec(e *Engine, c *Contract, fn *ssa.Function) *FnExec {
@@ -553,7 +554,13 @@ func (fr *Frame) phiEdge(phi *ssa.Phi, pred, b *ssa.BasicBlock) Value {
 func (x *FnExec) enterLoop(fr *Frame, li *loopInfo, ps []stParent, preds []*ssa.BasicBlock) (*State, *Term) {
 	b := li.header
 	if li.spec == nil {
-		unsupp("loop %d of %s has no invariant (out-of-subset)", li.ordinal, fr.fn)
+		// `opt autoloops` (thin safety contracts): a loop without a written invariant is cut with the trivial
+		// invariant `true` (plus the implicit range-index bounds); everything the loop writes is havocked
+		if (fr.contract != nil && fr.contract.Opts["autoloops"] != "") || (x.top != nil && x.top.Opts["autoloops"] != "") {
+			li.spec = &LoopSpec{Ordinal: li.ordinal}
+		} else {
+			unsupp("loop %d of %s has no invariant (out-of-subset)", li.ordinal, fr.fn)
+		}
 	}
 	var gs []*Term
 	for _, p := range ps {
@@ -722,6 +729,13 @@ func (x *FnExec) rangeIndexBounds(fr *Frame, li *loopInfo, phis map[*ssa.Phi]Val
 			break
 		}
 		if phi.Comment != "rangeindex" {
+			// counting loop variable: every edge is a constant or phi + positive constant, so the variable never
+			// drops below the least of those constants (implicit, proved on entry and on every back edge)
+			if lb := countingLowerBound(phi); lb != nil {
+				if p, ok := phis[phi].(*Term); ok {
+					out = append(out, x.compare(token.LEQ, x.bigConst(lb, phi.Type()), p, phi.Type()))
+				}
+			}
 			continue
 		}
 		var inc *ssa.BinOp
@@ -755,6 +769,44 @@ func (x *FnExec) rangeIndexBounds(fr *Frame, li *loopInfo, phis map[*ssa.Phi]Val
 		return nil
 	}
 	return x.tc.And(out...)
+}
+
+// countingLowerBound: phi of signed integer type whose edges are all integer constants or phi + positive constant
+// (at least one of each); returns the least constant.
+func countingLowerBound(phi *ssa.Phi) *big.Int {
+	bt, ok := phi.Type().Underlying().(*types.Basic)
+	if !ok || bt.Info()&types.IsInteger == 0 || bt.Info()&types.IsUnsigned != 0 {
+		return nil
+	}
+	var lb *big.Int
+	incs := 0
+	for _, e := range phi.Edges {
+		switch v := e.(type) {
+		case *ssa.Const:
+			if v.Value == nil || v.Value.Kind() != constant.Int {
+				return nil
+			}
+			c, ok := new(big.Int).SetString(v.Value.ExactString(), 10)
+			if !ok {
+				return nil
+			}
+			if lb == nil || c.Cmp(lb) < 0 {
+				lb = c
+			}
+		case *ssa.BinOp:
+			k, isc := v.Y.(*ssa.Const)
+			if v.Op != token.ADD || v.X != ssa.Value(phi) || !isc || k.Value == nil || k.Value.Kind() != constant.Int || constant.Sign(k.Value) <= 0 {
+				return nil
+			}
+			incs++
+		default:
+			return nil
+		}
+	}
+	if incs == 0 {
+		return nil
+	}
+	return lb
 }
 
 func (x *FnExec) closeLoop(fr *Frame, li *loopInfo, from *ssa.BasicBlock) {
